@@ -500,6 +500,10 @@ C04_CFGS = [
                'kind': ('pt', 2, False), 'nchains': 2, 'seed': 110}, {}),
     ('td-int-seed-pt', {'nparams': 3, 'props': [('nested', 4242, 2, [[0], [1]])], 'kind': ('pt', 3, False),
                         'nchains': 2, 'seed': 111}, {}),
+    # default_proposal / default_proposal_args: all parameters left to an adaptive default proposal that
+    # gets a full covariance matrix (ndarray)
+    ('mh-default-ss-cov2d-all', {'nparams': 3, 'props': [], 'kind': ('mh',), 'nchains': 2, 'seed': 112},
+     {'default': {'cls': 'ss_adaptive_normal', 'args': 'cov2d'}}),
 ]
 
 
@@ -519,7 +523,44 @@ def c04_cfgs(tier, seed):
     return out
 
 
-def run_one(cfg, opts, niter, before_sampler=None, user_props=None):
+# the sampler arguments `default_proposal` / `default_proposal_args` (parameters without an explicit
+# proposal), named symbolically in the options so that they survive JSON:
+#   opts['default'] = {'cls': None | 'ss_adaptive_normal' | 'at_adaptive_normal' | 'adaptive_normal',
+#                      'args': 'cov2d' (full covariance with off-diagonal terms, ndarray) | 'cov1d' (ndarray) |
+#                              'covlist' (list) | 'none'}
+DEFAULT_CLASSES = {None: 'Normal', 'ss_adaptive_normal': 'SSAdaptiveNormal', 'at_adaptive_normal': 'ATAdaptiveNormal',
+                   'adaptive_normal': 'AdaptiveNormal'}
+
+
+def default_family_of(cfg, opts):
+    """(default_proposal, default_proposal_args) for `build_real`, or None.  New argument objects on
+    every call (the arrays inside belong to the caller of the sampler)."""
+    spec = opts.get('default')
+    if not spec:
+        return None
+    from epsie import proposals as P
+    names = [G.pname(i) for i in G.missing(cfg)]
+    n = len(names)
+    cls = None if spec.get('cls') is None else getattr(P, DEFAULT_CLASSES[spec['cls']])
+    form = spec.get('args', 'none')
+    args = {}
+    if spec.get('cls') == 'at_adaptive_normal':
+        args = {'adaptation_duration': 12, 'diagonal': form == 'cov1d'}
+    elif spec.get('cls') == 'adaptive_normal':
+        args = {'prior_widths': {p: 3.0 + 0.5 * i for i, p in enumerate(names)}, 'adaptation_duration': 12,
+                'initial_std': numpy.array([0.25 + 0.125 * i for i in range(n)])}
+    elif form == 'cov2d':
+        cov = numpy.full((n, n), 0.0625)
+        cov[numpy.diag_indices(n)] = [0.375 + 0.125 * i for i in range(n)]
+        args = {'cov': cov}
+    elif form == 'cov1d':
+        args = {'cov': numpy.array([0.375 + 0.125 * i for i in range(n)])}
+    elif form == 'covlist':
+        args = {'cov': [0.375 + 0.125 * i for i in range(n)]}
+    return cls, args
+
+
+def run_one(cfg, opts, niter, before_sampler=None, user_props=None, default_family=None):
     """Build from scratch, start, run; everything a user can read afterwards.
     `before_sampler(props, names)`: what the user does with the proposal objects before the sampler
     gets them; `user_props`: build the sampler from these existing objects."""
@@ -530,7 +571,8 @@ def run_one(cfg, opts, niter, before_sampler=None, user_props=None):
     s, info = G.build_real(cfg, family=opts.get('family', 'normal'), model=model,
                            swap_interval=opts.get('swap_interval', 1), rng=random.Random(9),
                            before_sampler=before_sampler, user_props=user_props,
-                           reset_after_swap=opts.get('reset_after_swap', False))
+                           reset_after_swap=opts.get('reset_after_swap', False),
+                           default_family=default_family or default_family_of(cfg, opts))
     s.start_position = G.start_positions(cfg)
     s.run(niter // 2)
     s.run(niter - niter // 2)
@@ -659,6 +701,11 @@ PREUSE_CFGS = [
                     'kind': ('pt', 2, False), 'nchains': 2, 'seed': 127}, {'family': ['adaptive_normal']}),
     ('used-td-int-seed-mh', {'nparams': 3, 'props': [('nested', 4243, 2, [[0], [1]])], 'kind': ('mh',),
                              'nchains': 3, 'seed': 0}, {}),
+    # two parameters left to the default proposal; the caller keeps its default_proposal_args (a full
+    # covariance ndarray) and hands the same dictionary to the second sampler
+    ('used-mh-default-ss-cov2d-two', {'nparams': 3, 'props': [('plain', [1], False)], 'kind': ('mh',),
+                                      'nchains': 3, 'seed': 128},
+     {'family': ['adaptive_normal'], 'default': {'cls': 'ss_adaptive_normal', 'args': 'cov2d'}}),
 ]
 
 
@@ -717,13 +764,15 @@ def preuse_runs(cfg, opts, niter, ndraws, gens=PREUSE_GENS):
         use('draw', props, names, 'draw', ndraws)
 
     def first():
-        s, info = run_one(cfg, opts, niter, before_sampler=draw)
+        held['default'] = default_family_of(cfg, opts)
+        s, info = run_one(cfg, opts, niter, before_sampler=draw, default_family=held['default'])
         held['props'] = info['user_props']
         return s
     record('used', first)
     if 'props' in held:
-        # a second sampler from the same objects, used once more in between
-        record('reused', lambda: run_one(cfg, opts, niter, before_sampler=draw, user_props=held['props'])[0])
+        # a second sampler from the same objects (proposals and default_proposal_args), used once more in between
+        record('reused', lambda: run_one(cfg, opts, niter, before_sampler=draw, user_props=held['props'],
+                                         default_family=held['default'])[0])
     for g in gens:
         held.pop('props', None)
 
@@ -1178,6 +1227,14 @@ C07_CFGS = [
                                   'nchains': 2, 'seed': 212},
      {'swap_interval': 2, 'blobs': True, 'family': ['adaptive_normal'],
       'schedule': [5, 2, 'c', 2, 3, 'S', 3, 'c', 0, 1, 1]}),
+    # default_proposal / default_proposal_args: 1, 2 and all parameters without an explicit proposal
+    ('mh-default-ss-cov2d-all', {'nparams': 3, 'props': [], 'kind': ('mh',), 'nchains': 3, 'seed': 214},
+     {'default': {'cls': 'ss_adaptive_normal', 'args': 'cov2d'}}),
+    ('pt-default-ss-cov2d-two', {'nparams': 3, 'props': [('plain', [1], False)], 'kind': ('pt', 3, False), 'nchains': 3,
+                                 'seed': 215},
+     {'swap_interval': 2, 'family': ['adaptive_normal'], 'default': {'cls': 'ss_adaptive_normal', 'args': 'cov2d'}}),
+    ('mh-default-veitch-one', {'nparams': 2, 'props': [('plain', [0], False)], 'kind': ('mh',), 'nchains': 3, 'seed': 216},
+     {'blobs': True, 'default': {'cls': 'adaptive_normal'}}),
     ('mh-sequence', {'nparams': 2, 'props': [('plain', [1], False)], 'kind': ('mh',), 'nchains': 3, 'seed': 213},
      {'blobs': True, 'family': ['ss_adaptive_normal'], 'schedule': [3, 'c', 0, 2, 's', 1, 'c', 'c', 4, 'S', 2]}),
 ]
@@ -1210,7 +1267,8 @@ def c07_run(cfg, opts, pool, niter, salt=0, perturb=None, unshare_annealer=False
     model = G.QuadModel(names, blobs=opts.get('blobs', False))
     s, info = G.build_real(cfg, family=opts.get('family', 'normal'), model=model, pool=pool,
                            swap_interval=opts.get('swap_interval', 1), rng=random.Random(9),
-                           reset_after_swap=opts.get('reset_after_swap', False))
+                           reset_after_swap=opts.get('reset_after_swap', False),
+                           default_family=default_family_of(cfg, opts))
     if keep is not None:
         keep.update(info)
     if between is not None:
@@ -1248,7 +1306,8 @@ def c07_run(cfg, opts, pool, niter, salt=0, perturb=None, unshare_annealer=False
                 state = copy.deepcopy(s.state)
                 s, _ = G.build_real(cfg, family=opts.get('family', 'normal'), model=model, pool=pool,
                                     swap_interval=opts.get('swap_interval', 1), rng=random.Random(9),
-                                    reset_after_swap=opts.get('reset_after_swap', False))
+                                    reset_after_swap=opts.get('reset_after_swap', False),
+                                    default_family=default_family_of(cfg, opts))
                 s.set_state(state)
             elif op != 'end':
                 s.run(int(op))
@@ -1299,6 +1358,10 @@ def c07_cfgs(tier, seed):
             out.append(('random-%d' % k, cfg, {'family': fams, 'blobs': rng.random() < 0.3,
                                                'swap_interval': rng.choice([1, 2, 3]),
                                                'reset_after_swap': cfg['kind'][0] == 'pt' and rng.random() < 0.5}))
+            drng = random.Random(seed * 53 + k)
+            if G.missing(cfg) and drng.random() < 0.7:
+                out[-1][2]['default'] = {'cls': drng.choice(list(DEFAULT_CLASSES)),
+                                         'args': drng.choice(['cov2d', 'cov2d', 'cov1d', 'covlist'])}
             k += 1
     return out
 
@@ -1331,7 +1394,8 @@ def c07_search(chk, tier):
             variants = [False] + ([True] if annealed and not variant()['annealerPerChain'] else [])
             # sequences: the pools that copy (what a sequence can be sensitive to), one process pool, one perturbation
             sched = bool(opts.get('schedule'))
-            pools_here = inproc_pools + procpools if not sched else \
+            light = sched or bool(opts.get('default'))       # default-proposal configurations: the same pools
+            pools_here = inproc_pools + procpools if not light else \
                 [q for q in inproc_pools if q.name in ('deepcopy-map', 'pickle-map', 'chunk-copy-2')] + procpools[1:2]
             for unshare in variants:
                 label = name + ('(annealer copied per chain by the harness)' if unshare else '')
@@ -1371,7 +1435,7 @@ def c07_search(chk, tier):
                         break
                 # perturb the start of one chain, diff every other chain
                 for j in sorted({0, cfg['nchains'] - 1}) if not sched else [0]:
-                    for pool in (None, inproc_pools[0]) if not sched else (None,):
+                    for pool in (None, inproc_pools[0]) if not light else (None,):
                         try:
                             got, _ = c07_run(cfg, opts, pool, niter, perturb=j, unshare_annealer=unshare)
                         except REAL_CODE_ERRORS as e:
@@ -1594,6 +1658,11 @@ POOLFIRST_CFGS = [
                                      'nchains': 2, 'seed': 225},
      {'swap_interval': 3, 'reset_after_swap': True, 'family': ['ss_adaptive_normal'],
       'schedule': [4, 'c', 1, 1, 4, 2, 'c', 0, 2, 's', 3]}),
+    ('poolfirst-pt-default-at-all', {'nparams': 2, 'props': [], 'kind': ('pt', 3, True), 'nchains': 2, 'seed': 226},
+     {'reset_after_swap': True, 'default': {'cls': 'at_adaptive_normal', 'args': 'cov2d'}}),
+    ('poolfirst-mh-default-normal-covlist-two', {'nparams': 3, 'props': [('plain', [2], False)], 'kind': ('mh',),
+                                                 'nchains': 3, 'seed': 227},
+     {'family': ['ss_adaptive_normal'], 'default': {'cls': None, 'args': 'covlist'}}),
     ('poolfirst-mh-adaptive', {'nparams': 3, 'props': [('plain', [0], False), ('plain', [1], False)],
                                'kind': ('mh',), 'nchains': 4, 'seed': 224},
      {'family': ['ss_adaptive_normal', 'at_adaptive_normal']}),
@@ -1819,6 +1888,8 @@ def input_case(family, kind, flags, seed, optional):
     arrays, betas array, proposal objects, model; plus how to draw a replacement start for one chain."""
     import families as F
     rng = random.Random(seed)
+    if family.startswith('default:'):
+        return default_input_case(family, kind, seed, rng)
     cls, pkind, lo, hi = F.FAMILIES[family]
     n = max(lo, min(hi, 2))
     names = ['q%d' % j for j in range(n)]
@@ -1845,9 +1916,48 @@ def input_case(family, kind, flags, seed, optional):
                                for j, p in enumerate(names)}}
 
 
+def default_input_case(family, kind, seed, rng):
+    """`default:<class>:<argument form>:<number of parameters left to the default proposal>`: the sampler
+    arguments default_proposal / default_proposal_args; the objects inside the arguments are the caller's."""
+    from epsie import proposals as P
+    _, clsname, form, nmiss = family.split(':')
+    clsname = None if clsname == 'None' else clsname
+    allnames = ['q0', 'q1', 'x']
+    missing = {'1': ['q1'], '2': ['q0', 'q1'], 'all': list(allnames)}[nmiss]
+    given = [p for p in allnames if p not in missing]
+    n = len(missing)
+    cls = None if clsname is None else getattr(P, DEFAULT_CLASSES[clsname])
+    if clsname == 'at_adaptive_normal':
+        args = {'adaptation_duration': 12, 'diagonal': form == 'cov1d'}
+    elif clsname == 'adaptive_normal':
+        args = {'prior_widths': {p: 3.0 + 0.5 * i for i, p in enumerate(missing)}, 'adaptation_duration': 12,
+                'initial_std': numpy.array([0.25 + 0.125 * i for i in range(n)])}
+    elif form == 'cov2d':
+        cov = numpy.full((n, n), 0.0625)
+        cov[numpy.diag_indices(n)] = [0.375 + 0.125 * i for i in range(n)]
+        args = {'cov': cov}
+    elif form == 'cov1d':
+        args = {'cov': numpy.array([0.375 + 0.125 * i for i in range(n)])}
+    else:
+        args = {'cov': [0.375 + 0.125 * i for i in range(n)]}
+    nchains, betas = 3, numpy.array([1.0, 0.5, 0.25])
+    shape = (nchains,) if kind == 'mh' else (len(betas), nchains)
+    size = int(numpy.prod(shape))
+    start = {p: numpy.array([rng.uniform(-1, 1) for _ in range(size)]).reshape(shape) for p in allnames}
+    return {'parameters': allnames, 'start': start, 'betas': betas,
+            'proposals': [P.SSAdaptiveNormal(given, cov=0.25)] if given else [], 'annealer': None,
+            'default': (cls, args), 'model': G.QuadModel(allnames, blobs=seed % 2 == 1, box=1000.0), 'kind': kind,
+            'seed': seed % 1000 + 1, 'nchains': nchains,
+            'redraw': lambda: {p: numpy.array([rng.uniform(-1, 1) for _ in range(int(numpy.prod(shape[:-1])))]).reshape(
+                shape[:-1]) for p in allnames[:2]}}
+
+
 def input_digests(inp):
     import pickle
     d = {'start[%s]' % p: sha(a) for p, a in inp['start'].items()}
+    if inp.get('default'):
+        d['default_proposal_args'] = sha(inp['default'][1])
+        d['default_proposal_args (pickled)'] = hashlib.sha1(pickle.dumps(inp['default'][1])).hexdigest()[:16]
     d['start (keys)'] = sha(list(inp['start']))
     d['betas'] = sha(inp['betas'])
     d['parameters'] = sha(list(inp['parameters']))
@@ -1859,12 +1969,15 @@ def input_digests(inp):
 
 def input_sampler(inp, pool):
     from epsie.samplers import MetropolisHastingsSampler, ParallelTemperedSampler
+    kw = {}
+    if inp.get('default'):
+        kw = {'default_proposal': inp['default'][0], 'default_proposal_args': inp['default'][1]}
     if inp['kind'] == 'mh':
         return MetropolisHastingsSampler(inp['parameters'], inp['model'], inp['nchains'], proposals=inp['proposals'],
-                                         seed=inp['seed'], pool=pool)
+                                         seed=inp['seed'], pool=pool, **kw)
     return ParallelTemperedSampler(inp['parameters'], inp['model'], inp['nchains'], inp['betas'], swap_interval=2,
                                    proposals=inp['proposals'], adaptive_annealer=inp['annealer'], seed=inp['seed'],
-                                   pool=pool)
+                                   pool=pool, **kw)
 
 
 def input_case_run(family, kind, flags, seed, optional, pools=None, runs=(3, 4)):
@@ -1889,6 +2002,7 @@ def input_case_run(family, kind, flags, seed, optional, pools=None, runs=(3, 4))
     expect = input_digests(inp)
     values = {p: a.copy() for p, a in inp['start'].items()}
     betas0 = inp['betas'].copy()
+    dargs0 = copy.deepcopy(inp['default'][1]) if inp.get('default') else {}
 
     def check(what):
         nonlocal nchk
@@ -1897,6 +2011,11 @@ def input_case_run(family, kind, flags, seed, optional, pools=None, runs=(3, 4))
         bad = sorted(k for k in expect if expect[k] != now.get(k))
         if bad and not any(f[0].startswith('input-mutated') for f in findings):
             detail = ''
+            for k, v in dargs0.items():
+                if 'default_proposal_args' in bad and sha(v) != sha(inp['default'][1].get(k)):
+                    detail = ': default_proposal_args[%r] was %s and is now %s' % (
+                        k, numpy.array2string(numpy.asarray(v), precision=5).replace('\n', ''),
+                        numpy.array2string(numpy.asarray(inp['default'][1].get(k)), precision=5).replace('\n', ''))
             if 'betas' in bad:
                 detail = ': betas was %s and is now %s' % (numpy.array2string(betas0, precision=5),
                                                           numpy.array2string(inp['betas'], precision=5))
@@ -1980,6 +2099,15 @@ def input_cases(tier, seed):
             for _ in range(2):
                 out.append((fam, rng.choice(['mh', 'pt']), rng.choice(SPHERE_FLAGS) if sphere else None,
                             rng.randint(0, 10 ** 6), rng.randint(0, 99)))
+    # the sampler arguments default_proposal / default_proposal_args (1, 2, all parameters unlisted)
+    dflt = [('ss_adaptive_normal', 'cov2d', 'all', 'mh'), ('ss_adaptive_normal', 'cov2d', '2', 'pt'),
+            ('at_adaptive_normal', 'cov2d', '2', 'mh'), ('adaptive_normal', 'cov1d', '1', 'pt'),
+            ('None', 'cov2d', 'all', 'pt'), ('None', 'cov1d', '2', 'mh'), ('None', 'covlist', '1', 'mh')]
+    if tier != 'quick':
+        dflt = [(c, f, n, k) for c in ('None', 'ss_adaptive_normal', 'at_adaptive_normal', 'adaptive_normal')
+                for f in ('cov2d', 'cov1d', 'covlist') for n in ('1', '2', 'all') for k in ('mh', 'pt')]
+    for c, f, n, k in dflt:
+        out.append(('default:%s:%s:%s' % (c, f, n), k, None, rng.randint(0, 10 ** 6), None))
     return out
 
 
@@ -2005,7 +2133,8 @@ def inputs_search(chk, tier):
         nvac += vac
         hist[kind] = hist.get(kind, 0) + 1
     chk.coverage.setdefault('search', {})['caller_inputs'] = {
-        'cases': len(cases), 'families': len({c[0] for c in cases}), 'by_sampler': hist,
+        'cases': len(cases), 'families': len({c[0] for c in cases if not c[0].startswith('default:')}), 'by_sampler': hist,
+        'default_proposal_cases': sum(1 for c in cases if c[0].startswith('default:')),
         'tempered_cases_with_a_dynamic_ladder': sum(1 for c in cases if c[1] == 'pt' and c[3] % 3 != 0),
         'solid_angle_flag_combinations': len({tuple(c[2]) for c in cases if c[2]}),
         'with_non_default_optional_arguments': sum(1 for c in cases if c[4] is not None),
